@@ -195,6 +195,8 @@ static void run(void)
 	} else {
 		/* end to end: a log call whose printf format expands to the message, through a custom target and a file target */
 		qb_log_format_set(T, fmt);
+		/* the file target formats the same call with the same format and limit into a buffer of its own choosing */
+		if (FT >= 0) { qb_log_ctl(FT, QB_LOG_CONF_MAX_LINE_LEN, L); qb_log_ctl(FT, QB_LOG_CONF_ELLIPSIS, ell); qb_log_format_set(FT, fmt); }
 		{ const char *m = xc ? strchr(msg, QB_XC) : NULL; size_t pl = m ? (size_t)(m - msg) : mlen; if (!m && nl && pl) pl--; e2e_plain_len = pl; e2e_msg = msg; }
 		qb_log_from_external_source("my_function", "dir/my_file.c", "%s", LOG_INFO, 4242, 0, msg);
 		e2e_plain_len = (size_t)-1;
